@@ -137,7 +137,10 @@ def h_adjacency(nrec, header):
     for k in range(nrec):
         o = obs_menu[choice(len(obs_menu), f'obs{k}')]
         s_ = samp_menu[choice(len(samp_menu), f'samp{k}')]
-        recs.append((o, s_, var(f'a_{k}', nonzero=True)))
+        if flag(f'zero-record{k}'):
+            recs.append((o, s_, 0.0))       # an explicit zero record still names its observation and sample
+        else:
+            recs.append((o, s_, var(f'a_{k}', nonzero=True)))
     lines = []
     if header:
         lines.append('#OTU ID\tSampleID\tvalue\n')
@@ -162,6 +165,7 @@ def h_adjacency(nrec, header):
 
 ID_VARIANTS = ['ok', 'dup-first-last', 'dup-adjacent', 'too-few', 'too-many']
 MD_VARIANTS = ['none', 'ok', 'ok-with-null', 'too-short', 'too-long', 'string-entry', 'int-entry', 'list-entry',
+               'zero-int-entry', 'empty-string-entry', 'empty-list-entry', 'false-entry',
                'all-zero-ints', 'all-empty-strings', 'too-short-all-null', 'too-long-all-null']
 
 
@@ -181,6 +185,8 @@ def _md(variant, n):
     ok = [{'k': i} for i in range(n)]
     return {'none': None, 'ok': ok, 'ok-with-null': [None] + ok[1:], 'too-short': ok[:-1], 'too-long': ok + [{'k': 9}],
             'string-entry': ok[:-1] + ['oops'], 'int-entry': [7] + ok[1:], 'list-entry': ok[:-1] + [['a']],
+            'zero-int-entry': [0] + ok[1:], 'empty-string-entry': ok[:-1] + [''], 'empty-list-entry': [[]] + ok[1:],
+            'false-entry': ok[:-1] + [False],
             'all-zero-ints': [0] * n, 'all-empty-strings': [''] * n, 'too-short-all-null': [None] * (n - 1),
             'too-long-all-null': [None] * (n + 1)}[variant]
 
